@@ -24,7 +24,7 @@ CLAIM = {
              "on error-or-not and on the value for the proved fragment (maps and `,string` fields under the no-collision discipline), with each known divergence as an explicit guard plus a refutation "
              "witness. Both models are tied to the real sonic and the real encoding/json on generated (type, initial value, input, config) "
              "cases; the compiler's IL listing is tied to the model's compile for every generated type, and an interpreter of that IL (exec) is tied to the real decoder on the same cases; for bool, integers, floats, string, "
-             "interface{} and pointers / slices of those (nested arbitrarily) a simulation theorem links the compiled program, run by that interpreter, "
+             "interface{} and pointers / slices / fixed arrays of those (nested arbitrarily, well-shaped destinations) a simulation theorem links the compiled program, run by that interpreter, "
              "to the tree-level binder on every input (C01_compile_code, C01_il_sim); FieldMap and ResolveStruct are "
              "driven directly. The property's own oracle (sonic vs encoding/json, all generated and catalogue types) runs on every case."),
     "note": ("Trusted: Coq kernel, extraction, the OCaml driver, the Go harness, reflect-built types. The models are hand transcriptions of "
@@ -43,6 +43,7 @@ FINDINGS = [
     ("KF-C01-quoted-number-syntax", ("intkey", "qnum"), lambda s, j, v, je, se: v == "errdiff" and s == "E"),
     ("KF-C01-f32-double-rounding", ("f32dr",), lambda s, j, v, je, se: v == "valdiff" or (v == "errdiff" and s == "E")),
     ("KF-C01-utf8-raw", ("utf8raw",), lambda s, j, v, je, se: v == "valdiff"),
+    ("KF-C01-quoted-unmarshaler", ("qunm",), lambda s, j, v, je, se: v == "valdiff" or (v == "errdiff" and s == "O" and "invalid use of ,string" in je)),
     ("KF-C01-mapmerge", ("mapmerge",), lambda s, j, v, je, se: v == "valdiff"),
     ("KF-C01-fold", ("fold",), lambda s, j, v, je, se: v in ("valdiff", "errdiff")),
 ]
